@@ -28,6 +28,7 @@ STD_VARIANTS = [
     ("gw", "GW5", {"flow_proposal_class": "GWFlowProposal", "max_iteration": 450}),
     ("memory-reset", "G2u", {"memory": 50, "reset_weights": 2}),
     ("custom-resume-file", "G2u", {"resume_file": "state_of_my_run.pkl"}),
+    ("default-plots", "G2u", {"plot": True, "nlive": 50}),
 ]
 INS_VARIANTS = [
     ("ins-default", "G2u", {}),
@@ -38,6 +39,7 @@ INS_VARIANTS = [
     ("ins-maf", "G2u", {"flow_config": {"ftype": "maf"}, "max_iteration": 8}),
     ("ins-custom-resume-file", "G2u", {"resume_file": "state_of_my_run.pkl", "save_log_q": True}),
     ("ins-time-schedule", "G2u", {"checkpoint_on_iteration": False, "checkpoint_interval": 0.0}),
+    ("ins-default-plots", "G2u", {"plot": True}),
 ]
 
 
@@ -139,7 +141,7 @@ def analyse(case, res):
                 fn = [l.split(", in ")[-1].strip() for l in e.get("traceback", "").splitlines() if l.strip().startswith("File ") and "/nessai/" in l][-1:]
                 probs.append((f"resumed-run-raises:{e['error'].split(':')[0]}@{fn[0] if fn else '?'}", dict(segment=si, error=e["error"][:200])))
             elif e["ev"] == "done":
-                if "run_wall" in e:
+                if "run_wall" in e and e["run_wall"] == e["run_wall"]:   # (NaN: no checkpoint was written in the finishing segment, nothing was added to the clock)
                     # the segment that finishes the run: the sampling time accounted in it cannot be much less than the wall time of its sampling loop (time lost, e.g. a
                     # clock restarted without adding what had elapsed)
                     stats["timing_checks"] = stats.get("timing_checks", 0) + 1
